@@ -223,6 +223,8 @@ var c18Seq int
 // c18RunServer writes the files under a fresh directory, drives a real Server and returns the
 // published diagnostics of the current file.
 func c18RunServer(c *Ctx, ws c18WS, hasRoot bool, set [3]bool) []protocol.Diagnostic {
+	os.Unsetenv("LEDGER_FILE") // both would override the workspace's root journal
+	os.Unsetenv("HLEDGER_JOURNAL")
 	base := c.Tmp
 	if base == "" {
 		base = os.TempDir()
@@ -945,7 +947,7 @@ func genC18(c *Ctx) {
 		c.Emit("c18.analyze", c18AnalyzeCase(text, ea, ec))
 	}
 	// server level
-	for i := 0; i < c.N(220, 4000); i++ {
+	for i := 0; i < c.N(500, 4000); i++ {
 		ws := c18Workspace(c)
 		c.Count(fmt.Sprintf("ws.files%d", len(ws.Files)))
 		for _, f := range ws.Files {
